@@ -77,7 +77,7 @@ def check(tier, seed):
         for _ in range(600 if tier == "quick" else 6000):
             g, style = gen.weigh(c.rng, gen.structural(c.rng, maxn))
             k = c.rng.choice([0, 1, 1, 2, 2, 2, 3, 3, 5, 50])
-            cases.append("S %d %s" % (k, gen.graph_tokens(g)))
+            cases.append("%s %d %s" % ("S2" if c.rng.random() < 0.3 else "S", k, gen.graph_tokens(g)))   # S2: weights through an external property map
         for _ in range(600 if tier == "quick" else 6000):
             g = gen.structural(c.rng, maxn)
             if g[0] == 0: continue
@@ -96,12 +96,12 @@ def check(tier, seed):
                 scan = recover_scan(es, [int(x) for x in f["RET"]], [int(x) for x in f["DROP"]])
             except Exception:
                 scan = sorted(range(len(es)), key=lambda e: es[e][2])
-            mcases.append("%s %d %s" % (cs, len(scan), " ".join(map(str, scan))))
+            mcases.append("%s %d %s" % ("S" + cs[2:] if cs.startswith("S2 ") else cs, len(scan), " ".join(map(str, scan))))
         mo = lib.run_model("c15", mcases)
         bad = []
         for i, cs in enumerate(cases):
             t = cs.split()
-            nt = (t[0] == "B" and t[1] != t[2]) or (t[0] == "S" and int(t[1]) >= 1 and " DROP " in io[i] + " " and lib.fields(io[i], KEYS).get("DROP"))
+            nt = (t[0] == "B" and t[1] != t[2]) or (t[0] in ("S", "S2") and int(t[1]) >= 1 and " DROP " in io[i] + " " and lib.fields(io[i], KEYS).get("DROP"))
             c.count(cs, bool(nt), bucket=t[0] + ("" if t[0] == "B" else " k=" + t[1]))
             if io[i] != mo[i]: bad.append(i)
         c.extra["disagreements_checked"] = len(bad)
